@@ -261,27 +261,23 @@ func playCall(d ivg.Destination, t []string, i int) int {
 	return i + 1 + arity(t[i])
 }
 
-var encErrCodes = map[string]int{
-	"iconvg: drawing ops used in styling mode": 1,
-	"iconvg: invalid selector adjustment":      2,
-	"iconvg: invalid incrementing adjustment":  3,
-	"iconvg: styling ops used in drawing mode": 4,
-}
+// error values are identified through the verif-tagged exports (by value, not by message text), so
+// that rewording a message is not mistaken for a change of behaviour
+var encErrCodes = func() map[string]int {
+	m := map[string]int{}
+	for i, e := range encode.VerifErrors() {
+		m[e.Error()] = i + 1
+	}
+	return m
+}()
 
-var decErrCodes = map[string]int{
-	"iconvg: inconsistent metadata chunk length": 1,
-	"iconvg: invalid color":                      2,
-	"iconvg: invalid magic identifier":           3,
-	"iconvg: invalid metadata chunk length":      4,
-	"iconvg: invalid metadata identifier":        5,
-	"iconvg: invalid number":                     6,
-	"iconvg: invalid number of metadata chunks":  7,
-	"iconvg: invalid suggested palette":          8,
-	"iconvg: invalid view box":                   9,
-	"iconvg: unsupported drawing opcode":         10,
-	"iconvg: unsupported metadata identifier":    11,
-	"iconvg: unsupported styling opcode":         12,
-}
+var decErrCodes = func() map[string]int {
+	m := map[string]int{}
+	for i, e := range decode.VerifErrors() {
+		m[e.Error()] = i + 1
+	}
+	return m
+}()
 
 func encErr(err error) string {
 	if c, ok := encErrCodes[err.Error()]; ok {
